@@ -1,7 +1,11 @@
 //! Kani harnesses on the unmodified bnum crate (path dependency on /repo).
 //! Conventions: see README.md in this directory. Every harness is listed in harnesses.json.
-#![allow(dead_code, unused_imports, unused_macros)]
+#![allow(dead_code, unused_imports, unused_macros, unused_variables, unused_parens)]
+#![cfg_attr(kani, feature(signed_bigint_helpers, int_roundings))]
 
+#[cfg(kani)]
+#[macro_use]
+mod hmac;
 pub mod castref;
 pub mod conv;
 #[cfg(kani)]
@@ -20,3 +24,26 @@ mod c11_radix_out;
 mod c18_numtraits;
 #[cfg(kani)]
 mod c20_random;
+pub mod ora;
+#[cfg(kani)]
+mod c01_addsub;
+#[cfg(kani)]
+mod c05_shift;
+#[cfg(kani)]
+mod c06_bits;
+#[cfg(kani)]
+mod c07_cmp;
+#[cfg(kani)]
+mod a1_axioms;
+#[cfg(kani)]
+mod c15_slices;
+#[cfg(kani)]
+mod c17_traits;
+#[cfg(kani)]
+mod c04_panics;
+#[cfg(kani)]
+mod c02_mul;
+#[cfg(kani)]
+mod c03_div;
+#[cfg(kani)]
+mod c08_powlog;
